@@ -55,60 +55,69 @@ def _swapsides(data):
 
 
 def twosided_2_onesided(data):
-    """Convert a one-sided PSD to a twosided PSD
+    """Convert a two-sided PSD to a one-sided PSD
 
-    In order to keep the power in the onesided PSD the same
-    as in the twosided version, the onesided values are twice
-    as much as in the input data (except for the zero-lag value).
+    The input is in the FFT order (frequencies k*df, k=0..N-1; negative
+    frequencies stored in the second half). In order to keep the power in the
+    onesided PSD the same as in the twosided version, the onesided values are
+    twice as much as in the input data (except for the zero-lag value and,
+    when N is even, the Nyquist value).
 
     ::
 
-        >>> twosided_2_onesided([10, 2,3,3,2,8])
+        >>> twosided_2_onesided([10, 2, 3, 8, 3, 2])
         array([ 10.,   4.,   6.,   8.])
 
     """
-    assert len(data) % 2 == 0
     N = len(data)
     psd = np.array(data[0:N//2+1]) * 2.
     psd[0] /= 2.
-    psd[-1] = data[-1]
+    if N % 2 == 0:
+        psd[-1] /= 2.
     return psd
 
 
-def onesided_2_twosided(data):
-    """Convert a two-sided PSD to a one-sided PSD
+def onesided_2_twosided(data, odd=False):
+    """Convert a one-sided PSD to a two-sided PSD
 
     In order to keep the power in the twosided PSD the same
     as in the onesided version, the twosided values are 2 times
-    lower than the input data (except for the zero-lag and N-lag
-    values).
+    lower than the input data (except for the zero-lag and Nyquist
+    values). The output is in the FFT order (frequencies k*df, k=0..N-1).
+
+    :param bool odd: set to True if the one-sided PSD was obtained from an
+        odd number of frequencies (no Nyquist value); the output then has
+        2*len(data)-1 values instead of 2*len(data)-2.
 
     ::
 
-        >>> twosided_2_onesided([10, 4, 6, 8])
-        array([ 10.,   2.,   3.,   3., 2., 8.])
+        >>> onesided_2_twosided([10, 4, 6, 8])
+        array([ 10.,   2.,   3.,   8.,   3.,   2.])
 
     """
-    psd = np.concatenate((data[0:-1], cshift(data[-1:0:-1], -1)))/2.
-    psd[0] *= 2.
-    psd[-1] *= 2.
+    data = np.asarray(data)
+    if odd:
+        psd = np.concatenate((data, data[:0:-1])) / 2.
+        psd[0] *= 2.
+    else:
+        psd = np.concatenate((data, data[-2:0:-1])) / 2.
+        psd[0] *= 2.
+        psd[len(data)-1] *= 2.
     return psd
 
 
 def twosided_2_centerdc(data):
-    """Convert a two-sided PSD to a center-dc PSD"""
-    N = len(data)
-    # could us int() or // in python 3
-    newpsd = np.concatenate((cshift(data[N//2:], 1), data[0:N//2]))
-    newpsd[0] = data[-1]
-    return newpsd
+    """Convert a two-sided PSD (FFT order) to a center-dc PSD
+
+    The output frequencies are increasing from -N/2*df to (N/2-1)*df
+    (N even) or from -(N-1)/2*df to (N-1)/2*df (N odd).
+    """
+    return np.fft.fftshift(np.asarray(data))
 
 
 def centerdc_2_twosided(data):
-    """Convert a center-dc PSD to a twosided PSD"""
-    N = len(data)
-    newpsd = np.concatenate((data[N//2:], (cshift(data[0:N//2], -1))))
-    return newpsd
+    """Convert a center-dc PSD to a twosided PSD (FFT order)"""
+    return np.fft.ifftshift(np.asarray(data))
 
 
 def twosided(data):
